@@ -111,6 +111,9 @@ func RunConc(t TB, p *Program) *concResult {
 	e.openWith(e.Cfg, false)
 	if e.FS != nil {
 		e.FS.Perturb = perturb
+		e.FS.mu.Lock()
+		e.FS.MaxCreates = 100000 // forced compaction creates a file per round
+		e.FS.mu.Unlock()
 	}
 
 	nW := len(x.Writers)
